@@ -101,18 +101,31 @@ def run(ctx: Ctx) -> None:
                 d["cap"][w], len(s["cache"][w]), tuple(sorted(d["cap"].items())), tuple(e["exp"] for e in s["cache"][w]))
     paths = g.edge_cover_paths(ctx.rng, max_paths=600 if ctx.quick else 6000, key=key)
     paths += g.random_paths(ctx.rng, 300 if ctx.quick else 4000, 12)
+    # keep-alive family: ALL histories of one stream on two workers with caches (history-dependent cache bugs need a
+    # particular sequence of hits, not just every edge once); sampled in quick, complete in thorough
+    ck = consts(5, True, "{1}", methods='{"xa"}', max_clock=4, streams=1)
+    ck["Idents"] = Raw('{"A"}')
+    gr2, g2 = dump_graph(wd, "HttpStream", render_cfg(constants=ck, invariants=INVS), name="ka")
+    ctx.add_tlc("HttpStream state graph, one stream / two caching workers (all histories)", gr2)
+    require_ok(gr2, "HttpStream keep-alive graph")
+    allp, complete = g2.all_paths(20, 10**6)
+    ctx.extra["keepalive_histories_total"] = len(allp)
+    if ctx.quick:
+        allp = ctx.rng.sample(allp, min(len(allp), 900))
+    ka_paths = [(g2, p) for p in allp]
+    ctx.extra["keepalive_histories_replayed"] = len(ka_paths)
     ctx.rule = ("case = one history of init/continuation requests and clock ticks over two real workers with the cache "
                 "capacities TLC chose; every continuation is one differential observation (warm-or-whatever worker vs "
                 "a cache-less worker); non-trivial = distinct histories with >= 1 continuation")
     clock = H.Clock()
     traces, metas = [], []
     try:
-        for nodes, labs in paths:
-            beh = g.path_to_behaviour(nodes, labs)
+        for gg, (nodes, labs) in [(g, p) for p in paths] + ka_paths:
+            beh = gg.path_to_behaviour(nodes, labs)
             for b, lab in zip(beh, labs):
                 if lab.startswith("Tick"):
                     b["action"] = "Tick"
-            caps = dict(g.state(nodes[0])["cap"])
+            caps = dict(gg.state(nodes[0])["cap"])
             ev, recs = replay(beh, caps, clock)
             hist = [e["a"] if e["a"] != "cont" else f"cont@{e['w']}:{e['ep']}:{'served' if e['served'] else 'rejected'}" for e in ev]
             ctx.case([sorted(caps.items()), ev], nontrivial=any(e["a"] == "cont" for e in ev),
